@@ -465,24 +465,22 @@ impl ScaleIovecFamily {
     /// The quick tier: one or two representatives of every regime (about 20 s of model time in all).
     fn quick_cases() -> Vec<Vec<String>> {
         let mib = 1usize << 20;
+        // ordered so that the expensive cases (H) fall into different shards of an 8-way split
         let mut cases: Vec<Vec<String>> = vec![
-            snapshot_case(mib, 0, 0, 0, 0, 0, 100),
+            zero_anchor_case(mib, 2, 300, 0, 0, false),      // H  growth sequence, then the zero-count anchor
+            big_offset_case(mib, 0, 2, 1, 3 * mib, 0),       // H  placeholder at in-slice offset 2^20
+            many_slices_case(1025, 2, 66, 0, false),         // H  1025 single pushes
+            many_anchors_case(257, "clone"),                 // H
+            long_history_case(1100, 0, false),               // H
+            snapshot_case(mib, 2, 1, 0, 3, 0, 100),          // H  growth sequence, then the snapshot
+            zero_anchor_case(mib, 0, 300, 100, 1, false),    // H
+            detached_case(mib, 0, 400, 1, 0),                // H
             snapshot_case(mib, 0, 1, 2, 1, 1, 1),
-            snapshot_case(mib, 0, 50, 1, 2, 2, 5000),
-            snapshot_case(mib, 2, 1, 0, 3, 0, 100),
-            zero_anchor_case(mib, 0, 300, 0, 0, false),
-            zero_anchor_case(mib, 0, 300, 100, 1, false),
+            snapshot_case(mib, 0, 0, 0, 0, 0, 100),
             zero_anchor_case(mib, 0, 65, 0, 2, true),
-            zero_anchor_case(mib, 2, 300, 0, 0, false),
-            detached_case(mib, 0, 400, 1, 0),
-            exact_fit_case(mib, 0),
             big_offset_case(1 << 16, -1, 1, 0, 1 << 18, 0),
             big_offset_case(1 << 16, 0, 2, 1, 1 << 18, 1),
-            big_offset_case(1 << 16, 4096, 3, 2, 1 << 18, 2),
-            big_offset_case(mib, 0, 2, 1, 3 * mib, 0),
-            big_offset_case(mib, -1, 2, 2, 3 * mib, 1),
             many_slices_case(1024, 0, 65, 0, false),
-            many_slices_case(1025, 2, 66, 0, false),
             many_slices_case(1025, 1, 67, 3, false),
             many_slices_case(1100, 0, 70, 2, false),
             many_slices_case(1100, 1, 68, 4, false),
@@ -490,11 +488,10 @@ impl ScaleIovecFamily {
             many_slices_case(1100, 0, 71, 5, false),
             many_backrefs_case(256, true, true),
             many_backrefs_case(257, false, false),
-            many_anchors_case(257, "clone"),
+            long_history_case(1100, 1, false),
+            long_history_case(1100, 2, false),
+            long_history_case(600, 3, false),
         ];
-        for kind in 0..4u64 {
-            cases.push(long_history_case(1100, kind, false));
-        }
         for c in scoped_cases(&[100, mib]) {
             cases.push(Self::wrap_scoped(c));
         }
